@@ -299,6 +299,5 @@ PROPS = {
         ],
         not_decided=[
             'not decided: re-registering a factory for a type that still has live agents (excluded by precondition)',
-            'not decided: Model.reset() on a model without a data collector (precondition data_collector is not None)',
         ]),
 }
